@@ -205,6 +205,14 @@ impl Store {
             .load(std::sync::atomic::Ordering::Relaxed)
     }
 
+    /// Mark the store as poisoned: a commit could not be carried through and the in-memory state
+    /// no longer matches what is on disk. Further commits are refused.
+    pub fn poison(&self) {
+        self.shared
+            .poisoned
+            .store(true, std::sync::atomic::Ordering::Relaxed);
+    }
+
     pub fn sync_seqn(&self) -> u32 {
         self.sync.lock().sync_seqn
     }
